@@ -186,6 +186,22 @@ def _parse_case_line(line):
                 direct=m.group(3), unknown=int(m.group(4)))
 
 
+def _parse_nt_line(line):
+    parts = line.split(" | ")
+    if len(parts) != 3 or not parts[0].startswith("ntcase "):
+        return None
+    m = re.match(r"needs_trace=(true|false)$", parts[2].strip())
+    return dict(name=parts[0].split()[1], ty=parts[1], needs=m.group(1)) if m else None
+
+
+def _parse_surv_line(line):
+    m = re.match(r"surv (\S+) observed:(\d+) destructed:(\d+) tokens:(\d+) tokens_dropped:(\d+) garbage:(true|false)$", line.strip())
+    if not m:
+        return None
+    return dict(name=m.group(1), observed=int(m.group(2)), destructed=int(m.group(3)), tokens=int(m.group(4)),
+                tokens_dropped=int(m.group(5)), garbage=m.group(6) == "true")
+
+
 def _case_source(exe, name):
     try:
         rc, out = _sh([exe, "c15-src", name], timeout=60)
@@ -197,20 +213,27 @@ def _case_source(exe, name):
 def _c15_shapes(exe, model_cmd, seed, problems, res):
     rc, out = _sh([exe, "c15"], timeout=600)
     cases = [c for c in (_parse_case_line(l) for l in out.splitlines()) if c]
-    if rc != 0 or not cases:
+    ntcases = [c for c in (_parse_nt_line(l) for l in out.splitlines()) if c]
+    survs = {c["name"]: c for c in (_parse_surv_line(l) for l in out.splitlines()) if c}
+    if rc != 0 or not cases or "# done" not in out:
         problems.append(_problem("c15-harness-run", "the C15 shape harness did not run to completion "
-                                 f"(exit {rc}): a derived impl panicked or crashed while being traced",
-                                 False, lines=out.splitlines()[-40:]))
-        return
-    queries = [f"case {c['name']} {c['ty']} {c['val']}" for c in cases]
+                                 f"(exit {rc}): a derived impl panicked or crashed while being traced or while its value, "
+                                 "stored as the arena root, went through two collection cycles",
+                                 False, lines=[l[:300] for l in out.splitlines()[-12:]]))
+        if not cases:
+            return
+    queries = [f"case {c['name']} {c['ty']} {c['val']}" for c in cases] + \
+              [f"check {c['name']} {c['ty']}" for c in ntcases]
     mrc, mlines = _ask_model(model_cmd, queries)
     model = {}
     for l in mlines:
         nm, _, rest = l.partition(" ")
         model[nm] = rest
-    res["evaluations"] += len(cases)
+    res["evaluations"] += len(cases) + len(ntcases) + len(survs)
     nontrivial = set()
     nviol = 0
+    # shapes spelled with `Self` first: a recursive node is the shape users write most often
+    cases.sort(key=lambda c: (0 if (" GS" in c["ty"] or " WS" in c["ty"]) else 1))
     for c in cases:
         ins = _inserted(c["val"])
         if ins != "[]":
@@ -240,6 +263,16 @@ def _c15_shapes(exe, model_cmd, seed, problems, res):
         if c["needs"] == "false" and ins != "[]":
             failing = True
             why.append("NEEDS_TRACE is false although the value holds arena pointers")
+        sv = survs.get(c["name"])
+        if sv is not None:
+            res["disagreements_checked"] += 1
+            if sv["destructed"] or sv["tokens_dropped"]:
+                failing = True
+                why.append(f"end-to-end: with the value as the arena root, {sv['destructed']} of {sv['observed']} allocations "
+                           f"reachable through strong pointers and {sv['tokens_dropped']} of {sv['tokens']} drop tokens of "
+                           "reachable nodes were destructed by two finish_cycle()s")
+            elif not sv["garbage"]:
+                why.append("survival run vacuous: an unreferenced allocation was not collected by two finish_cycle()s")
         # (2) against the model
         if pred is None:
             why.append("the model gave no answer for this case")
@@ -261,21 +294,44 @@ def _c15_shapes(exe, model_cmd, seed, problems, res):
                         why.append(f"model predicts direct={m.group(3)}, implementation {c['direct']}")
         if why:
             nviol += 1
-            if nviol <= 12:
+            if nviol <= 10:
                 src = _case_source(exe, c["name"])
                 header = [f"C15 shape differential, seed {seed}, case {c['name']}"] + why + [
                     f"inserted  {ins}", f"reported  {c['reported']}  (through Trace::trace)",
                     f"direct    {c['direct']}  (Collect::trace)", f"NEEDS_TRACE {c['needs']}",
                     f"model     {pred}",
+                    f"survival  {sv}",
                     "model query: " + f"case {c['name']} {c['ty']} {c['val']}",
                     "the body is the complete Rust snippet: declarations + the expression that builds the value",
                     "(`p.g(id)` / `p.w(id)` allocate the distinct Gc / GcWeak with that id; see harness_collect/src/rec.rs)"]
                 cat = ("not-reported" if "NOT reported" in why[0] else "wrong-kind" if "wrong strong/weak" in why[0]
-                       else "needs-trace" if "NEEDS_TRACE" in why[0] else "extra" if "does not hold" in why[0] else "model")
+                       else "needs-trace" if "NEEDS_TRACE" in why[0] else "extra" if "does not hold" in why[0]
+                       else "freed-while-reachable" if "end-to-end" in why[0] else "model")
                 problems.append(_problem(f"shape-{c['name']}", "derive(Collect) shape " + c["name"] + ": " + why[0],
                                          failing, header=header, lines=src, key=f"derive-shape-{cat}"))
-    if nviol > 12:
-        problems.append(_problem("shape-more", f"{nviol - 12} further shape cases disagree (not listed)", False))
+    nnt = 0
+    for c in ntcases:
+        # types of which safe code cannot build a finite value (a struct with a bare `Gc<'gc, Self>`
+        # field): only the NEEDS_TRACE constant is compared with the model
+        res["disagreements_checked"] += 1
+        nontrivial.add((c["ty"], "-"))
+        pred = model.get(c["name"], "")
+        m = re.match(r"ok needs_trace=(true|false)$", pred)
+        if not m or m.group(1) != c["needs"]:
+            nviol += 1
+            nnt += 1
+            if nnt <= 2:
+                failing = bool(m)
+                text = (f"wrong NEEDS_TRACE: implementation {c['needs']}, derive algorithm (model) {m.group(1)}" if m
+                        else f"model and implementation disagree: the model answers `{pred}` for a shape that compiles")
+                header = [f"C15 shape differential, seed {seed}, case {c['name']} (NEEDS_TRACE constant only)", text,
+                          f"NEEDS_TRACE {c['needs']}", f"model     {pred}", f"model query: check {c['name']} {c['ty']}"]
+                problems.append(_problem(f"shape-{c['name']}", "derive(Collect) shape " + c["name"] + ": " + text, failing,
+                                         header=header, lines=_case_source(exe, c["name"]),
+                                         key="derive-shape-needs-trace" if m else "derive-shape-model"))
+    listed = min(nviol - nnt, 10) + min(nnt, 2)
+    if nviol > listed:
+        problems.append(_problem("shape-more", f"{nviol - listed} further shape cases disagree (not listed)", False))
     res["_nontrivial"] |= nontrivial
     for c in cases[:3]:
         res["samples"].append(dict(case=c["name"], ty=c["ty"][:300], val=c["val"][:200], needs_trace=c["needs"],
@@ -612,6 +668,103 @@ def _c15_probes(rlib, deps, model_cmd, problems, res):
 
 
 # --------------------------------------------------------------------------------------------
+# C15: which spellings of a field type with `Self` the derive accepts, and the constant it computes
+# --------------------------------------------------------------------------------------------
+SELF_SPELLINGS = [
+    # (name, field type, expected NEEDS_TRACE of the node | "cycle" = rustc reports E0391 on the pristine tree)
+    ("gc_self", "Gc<'gc, Self>", True),
+    ("gcweak_self", "GcWeak<'gc, Self>", True),
+    ("option_gc_self", "Option<Gc<'gc, Self>>", True),
+    ("option_gcweak_self", "Option<GcWeak<'gc, Self>>", True),
+    ("vec_gc_self", "Vec<Gc<'gc, Self>>", True),
+    ("array_option_gc_self", "[Option<Gc<'gc, Self>>; 2]", True),
+    ("gc_reflock_self", "Gc<'gc, RefLock<Self>>", True),
+    ("option_gc_reflock_self", "Option<Gc<'gc, RefLock<Self>>>", True),
+    ("reflock_option_gc_self", "RefLock<Option<Gc<'gc, Self>>>", True),
+    ("lock_option_gc_self", "Lock<Option<Gc<'gc, Self>>>", True),
+    ("btreemap_gc_self", "BTreeMap<u8, Gc<'gc, Self>>", True),
+    ("tuple_gc_self", "(u8, Gc<'gc, Self>)", True),
+    ("result_gc_gcweak_self", "Result<Gc<'gc, Self>, GcWeak<'gc, Self>>", True),
+    ("phantom_self", "PhantomData<Self>", False),
+    ("option_box_self", "Option<Box<Self>>", "cycle"),
+    ("vec_self", "Vec<Self>", "cycle"),
+    ("box_self", "Box<Self>", "cycle"),
+    ("option_rc_reflock_self", "Option<Rc<RefLock<Self>>>", "cycle"),
+]
+
+SELF_PROGRAM = """#![allow(dead_code, unused)]
+use gc_arena::{{Collect, Gc, GcWeak, lock::{{Lock, RefLock}}}};
+use std::{{collections::BTreeMap, marker::PhantomData, rc::Rc}};
+struct Token;
+// a recursive node with a plain and a require_static payload; the ONLY field that may need tracing is
+// the link, whose type is spelled with `Self`
+#[derive(Collect)]
+#[collect(no_drop)]
+{decl}
+{check}
+"""
+
+
+def _c15_self_spellings(rlib, deps, problems, res):
+    progs = []
+    for name, ty, exp in SELF_SPELLINGS:
+        for kind in ("struct", "enum"):
+            if kind == "struct":
+                decl = ("struct Node<'gc> {\n    value: u32,\n    #[collect(require_static)]\n    token: Token,\n"
+                        f"    link: {ty},\n    marker: PhantomData<Gc<'gc, ()>>,\n}}")
+            else:
+                decl = ("enum Node<'gc> {\n    Nil,\n    Leaf(#[collect(require_static)] Token, u32),\n"
+                        f"    Link {{ value: u32, link: {ty} }},\n    Marker(PhantomData<Gc<'gc, ()>>),\n}}")
+            check = ("const _: bool = <Node<'static> as Collect>::NEEDS_TRACE;" if exp == "cycle" else
+                     f"const _: () = assert!(<Node<'static> as Collect>::NEEDS_TRACE == {'true' if exp else 'false'});")
+            progs.append(dict(name=f"self_{name}.{kind}", src=SELF_PROGRAM.format(decl=decl, check=check), ty=ty, exp=exp, kind=kind))
+    pdir = os.path.join(WORK, "collect_probes")
+    os.makedirs(pdir, exist_ok=True)
+    with concurrent.futures.ThreadPoolExecutor(max_workers=min(8, os.cpu_count() or 4)) as ex:
+        results = {n: (rc, out) for n, rc, out in ex.map(lambda p: _run_probe(p, pdir, rlib, deps), progs)}
+    table = []
+    nbad = 0
+    for p in progs:
+        rc, out = results[p["name"]]
+        res["evaluations"] += 1
+        res["programs"] += 1
+        errs = [l for l in out.splitlines() if l.startswith("error")]
+        if rc == 0:
+            outcome = "accepted" + ("" if p["exp"] == "cycle" else f", NEEDS_TRACE == {str(p['exp']).lower()}")
+        elif "E0391" in out:
+            outcome = "rejected: NEEDS_TRACE const-evaluation cycle (E0391)"
+        elif "E0080" in out or "assertion failed" in out or "evaluation panicked" in out:
+            outcome = f"accepted, but NEEDS_TRACE != {str(p['exp']).lower()}"
+        else:
+            outcome = "rejected: " + (errs[0] if errs else "?")[:120]
+        table.append(dict(field_type=p["ty"], in_=p["kind"], expected=("E0391 cycle" if p["exp"] == "cycle" else f"NEEDS_TRACE {p['exp']}"),
+                          outcome=outcome))
+        hdr = [f"C15 `Self`-spelling probe `{p['name']}`: a recursive node whose only possibly-traced field is `link: {p['ty']}`",
+               "compile: rustc --edition 2024 --crate-type lib --extern gc_arena=<rlib> -L dependency=<deps> probe.rs",
+               f"expected: {'rejected with E0391 on the pristine tree (by-value recursion)' if p['exp'] == 'cycle' else 'NEEDS_TRACE == ' + str(p['exp']).lower() + ' (const assertion)'}",
+               f"outcome: {outcome}"] + ["  " + e for e in errs[:4]]
+        if p["exp"] == "cycle":
+            continue  # recorded only: accepting by-value recursion is not a listed misuse
+        res["disagreements_checked"] += 1
+        res["_nontrivial"].add(("self-spelling", p["name"]))
+        if (outcome.startswith("accepted, but") or rc != 0):
+            nbad += 1
+            if nbad > 3:
+                continue
+        if outcome.startswith("accepted, but"):
+            problems.append(_problem(f"self-spelling-{p['name']}", f"derived NEEDS_TRACE of a node whose link is spelled `{p['ty']}` is "
+                                     f"{str(not p['exp']).lower()}: the constant must be true exactly when some traced field type's is "
+                                     "(a pointer to Self needs tracing regardless of the pointee)", True, header=hdr,
+                                     lines=p["src"].splitlines(), key=f"derive-self-spelling-{p['name']}"))
+        elif rc != 0:
+            problems.append(_problem(f"self-spelling-{p['name']}", f"`Self`-spelling probe `{p['name']}` (valid on the pristine tree) "
+                                     f"no longer compiles: {outcome}", False, header=hdr, lines=p["src"].splitlines()))
+    if nbad > 3:
+        problems.append(_problem("self-spelling-more", f"{nbad - 3} further `Self`-spelling probes fail (see the evidence table)", False))
+    res["summary"]["self_spellings"] = table
+
+
+# --------------------------------------------------------------------------------------------
 # C16: container grid
 # --------------------------------------------------------------------------------------------
 C16_SNIPPET = """// replay: in /verif/harness_collect run `cargo run --offline{feat} -- c16 | grep -F '{grep}'`
@@ -728,6 +881,8 @@ def run(prop, tier, seed, repo=None):
                 _c15_shapes(exe, model_cmd, s, problems, res)
         if rlib and model_cmd is not None:
             _c15_probes(rlib, deps, model_cmd, problems, res)
+        if rlib:
+            _c15_self_spellings(rlib, deps, problems, res)
     else:
         res["rule"] = ("a container case is non-trivial when at least one pointer was inserted (distinct impl x parameter position "
                        "x kind x size x element position x feature set); every survival run counts")
